@@ -1,5 +1,6 @@
 import PdfModel.Lemmas.Widths
 import PdfModel.Lemmas.CMapWrite
+import PdfModel.Lemmas.CMapTotal
 
 /-!
   C19 — "Glyph widths and Unicode maps follow the font dictionaries exactly".
@@ -186,6 +187,11 @@ theorem parse_write_cmap (list : List Entry) (hs : strictFrom 0 list) (hsc : ∀
   rw [h3]
   simp only [Map.get]
   rw [find_reverse_sorted cid list 0 hs]
+
+/-- The reader model answers on *every* byte string (a map, `Err`, or "outside the modelled fragment"): every
+    step of the lexer, the hexadecimal-string reader, the array loop and the three loops consumes input, so the
+    fuel `len + 1` is never the reason for an answer. -/
+theorem parse_cmap_total (bs : Bytes) : parseCMap bs ≠ .oof := parseCMap_ne_oof bs
 
 /-! ### non-vacuity and regression examples -/
 
